@@ -63,6 +63,30 @@ def _key_exprs_with_id(fn: ast.AST) -> dict[str, ast.AST]:
     return out
 
 
+def _kept_names(value: ast.AST) -> set[str]:
+    """Names whose objects are *kept* by the stored value: members of a tuple/list/dict/set display,
+    or wrapped by tuple()/list()/frozenset(); a name that is merely an argument of some other call is
+    consumed by that call, not kept."""
+    out: set[str] = set()
+    stack = [value]
+    while stack:
+        n = stack.pop()
+        if isinstance(n, ast.Name):
+            out.add(n.id)
+        elif isinstance(n, (ast.Tuple, ast.List, ast.Set)):
+            stack.extend(n.elts)
+        elif isinstance(n, ast.Dict):
+            stack.extend(v for v in n.values if v is not None)
+            stack.extend(k for k in n.keys if k is not None)
+        elif isinstance(n, ast.Starred):
+            stack.append(n.value)
+        elif isinstance(n, ast.Call) and isinstance(n.func, ast.Name) and n.func.id in ("tuple", "list", "frozenset", "set"):
+            stack.extend(n.args)
+        elif isinstance(n, ast.Subscript):
+            stack.append(n.value)
+    return out
+
+
 def local_pin(fn: ast.AST, subject: ast.AST) -> tuple[bool, str] | None:
     """Is there a store keyed by id(subject) in fn, and does its value keep subject alive?
     None = no store in this function."""
@@ -74,7 +98,7 @@ def local_pin(fn: ast.AST, subject: ast.AST) -> tuple[bool, str] | None:
         uses_id = bool(id_calls(key)) or (isinstance(key, ast.Name) and key.id in keyvars)
         if not uses_id:
             continue
-        names = {n.id for n in ast.walk(stmt.value) if isinstance(n, ast.Name)}
+        names = _kept_names(stmt.value)
         if root is not None and root in names:
             return True, f"store `{node_text(stmt, 70)}` keeps `{root}` in the entry"
         verdict = (False, f"store `{node_text(stmt, 70)}` does not reference `{root}`: the keyed object can be "
